@@ -339,6 +339,25 @@ func (ex *Exec) primExt(fn *ssa.Function, args []Value) (Value, bool) {
 		setField(pk, fn.Signature.Params().At(0).Type().(*types.Pointer).Elem(), mk("ecdsa.PublicKey"))
 		setField(sk, fn.Signature.Params().At(1).Type().(*types.Pointer).Elem(), mk("ecdsa.PrivateKey"))
 		return nil, true
+	case "vpxSpecDigest":
+		// reference: SHA-256(DER(SEQUENCE{ [TRUE,] count, values... })) as an unsigned integer
+		vals := args[0].(Slice)
+		var es []derElem
+		issig := term(args[1])
+		if issig.IsTrue() {
+			es = append(es, derElem{"bool", smt.I64(1)})
+		} else if !issig.IsFalse() {
+			panic("vpxSpecDigest needs a concrete session flag (branch on it in the harness)")
+		}
+		es = append(es, derElem{"int", smt.I64(int64(vals.Len))})
+		for k := 0; k < vals.Len; k++ {
+			es = append(es, derElem{"int", ex.argBig(ex.load(vals.A.E[vals.Off+k]), "vpxSpecDigest").I})
+		}
+		return ex.newBig(BigVal{I: ex.specDigest(es)}), true
+	case "vpxPrimeNear":
+		b := ex.argBig(args[0], "vpxPrimeNear")
+		ex.assume(isPrime(b.I))
+		return ex.newBig(BigVal{I: b.I, Factors: []*smt.Term{b.I}}), true
 	case "vpxCorrupt":
 		sl := args[0].(Slice)
 		if sl.A == nil {
